@@ -133,6 +133,8 @@ CHECKS = {
         "legs": [
             {"test": "TestC06", "quick": {"checks": 2000, "timeout": "20m"},
              "thorough": {"checks": 6000, "shards": 4, "timeout": "90m"}},
+            {"test": "TestC06_Reconnect", "quick": {"checks": 1000, "timeout": "20m"},
+             "thorough": {"checks": 10000, "shards": 4, "timeout": "90m"}},
         ],
     },
     "C07": {
@@ -161,7 +163,7 @@ CHECKS = {
         "assumptions": EXPLORATION_ASSUMPTIONS + ["reference states come from a separate lock-step run of the same lines on a fresh tracked client without user handlers (differential oracle: independent of the C13 model being exact)",
                                                   "background handlers are checked in lock-step mode only; a multi-call snapshot is stable there because nothing else is in flight"],
         "legs": [
-            {"test": "TestC05", "quick": {"checks": 300, "timeout": "15m"},
+            {"test": "TestC05", "quick": {"checks": 800, "timeout": "15m"},
              "thorough": {"checks": 3000, "shards": 4, "timeout": "60m"}},
         ],
     },
